@@ -187,6 +187,10 @@ def degenerate(impl, name, spec, opts, k=2):
     if len(vals) < kk + 1:
         return True
     scale = max(vals) or 1.0
+    if probe == 'Spectral':
+        # the trivial pair is dropped, so the remaining eigenvalues (all in [-1, 1]) may ALL be ~0 (stars, complete
+        # bipartite graphs): ties must be judged on the absolute scale of the spectrum, not relative to themselves
+        scale = max(scale, 1.0)
     for a, b in zip(vals, vals[1:]):
         if abs(a - b) <= 1e-4 * scale:
             return True
